@@ -259,6 +259,75 @@ def analyse_rule(m, reg_by_obj, fname, sig_index, live_sig, op_pos):
             else:
                 args.append([("unknown", )])
         info.fwds.append({"target": tname, "args": args, "text": ast.unparse(call)})
+    # ---- the full per-rule structure (round 2): what is touched, and every call of a dispatched function of the family with
+    # the SOURCE of each argument: the operator as a whole, a MEMBER of it (an element of `A.Ms`, or `A.A`), `I_like(A)`,
+    # a parameter of the rule, or an expression of a statically known class
+    member_names = set()
+    for node in body_nodes:
+        gens = node.generators if isinstance(node, (ast.ListComp, ast.GeneratorExp, ast.SetComp, ast.DictComp)) else []
+        iters = [(g.target, g.iter) for g in gens]
+        if isinstance(node, ast.For):
+            iters.append((node.target, node.iter))
+        for tgt, it in iters:
+            txt = ast.unparse(it)
+            if f"{pname}.Ms" not in txt:
+                continue
+            names = [tgt] if isinstance(tgt, ast.Name) else list(getattr(tgt, "elts", []))
+            if isinstance(it, ast.Call) and callee_name(it.func) == "zip" and isinstance(tgt, (ast.Tuple, ast.List)):
+                names = [t for t, a in zip(tgt.elts, it.args) if f"{pname}.Ms" in ast.unparse(a)]
+            for t in names:
+                if isinstance(t, ast.Name):
+                    member_names.add(t.id)
+
+    def arg_source(v):
+        if isinstance(v, ast.Name) and v.id == pname:
+            return ("whole", )
+        if isinstance(v, ast.Name) and v.id in member_names:
+            return ("member", )
+        if isinstance(v, ast.Attribute) and isinstance(v.value, ast.Name) and v.value.id == pname and v.attr == "A":
+            return ("member", )
+        if isinstance(v, ast.Subscript) and ast.unparse(v.value) == f"{pname}.Ms":
+            return ("member", )
+        if isinstance(v, ast.Call) and callee_name(v.func) in LAZY_CALLEES and len(v.args) == 1 and isinstance(v.args[0], ast.Name) \
+                and v.args[0].id == pname:
+            return ("ilike", )
+        return ("alts", classify_expr(m, mod, fdef, v, params, defaults, pname))
+    info.calls = []
+    for node in body_nodes:
+        if not isinstance(node, ast.Call):
+            continue
+        tgt = reg_by_obj.get(id(eval_in(mod, node.func)))
+        if tgt is None or tgt[0] not in FAMILY:
+            continue
+        tname, is_abstract = tgt
+        f = m.functions[tname]["function"]
+        pos, kws = list(node.args), {k.arg: k.value for k in node.keywords if k.arg}
+        bound = None
+        if not (any(isinstance(x, ast.Starred) for x in pos) or any(k.arg is None for k in node.keywords)):
+            if is_abstract:
+                try:
+                    b = D.abstract_signature(f).bind(*pos, **kws)
+                    b.apply_defaults()
+                    bound = list(b.arguments.values())
+                except TypeError:
+                    bound = None
+            else:
+                bound = pos
+        if bound is None:
+            info.calls.append({"target": tname, "args": None, "text": ast.unparse(node)})
+            continue
+        srcs = []
+        for v in bound:
+            if isinstance(v, ast.AST):
+                srcs.append(arg_source(v))
+            elif type(v) in m.cid:
+                srcs.append(("alts", [("const", m.cid[type(v)])]))
+            else:
+                srcs.append(("alts", [("unknown", )]))
+        info.calls.append({"target": tname, "args": srcs, "text": ast.unparse(node)})
+    norm = {"Ms": "Ms", "diag": "diag", "c": "c", "multiplicities": "multiplicities", f"return {pname}": "self",
+            f"I_like({pname})": "I_like", f"scalar * {pname}": "scalarMul", f"product([{pname}] * k)  (lazy Product)": "lazyPower"}
+    info.touch = sorted(norm[a] for a in attrs if a in norm)
     return info
 
 
@@ -449,6 +518,12 @@ def lean_alt(a):
     return ".unknown"
 
 
+def lean_src(a):
+    if a[0] in ("whole", "member", "ilike"):
+        return "." + a[0]
+    return ".alts " + D.lean_list(lean_alt(x) for x in a[1])
+
+
 def emit_lean(m, S, fam, path):
     o = []
     w = o.append
@@ -495,6 +570,20 @@ def emit_lean(m, S, fam, path):
         w("]")
         w(f"def entry_{name} : Entry := ⟨{json.dumps(name)}, table_{name}, impls_{name}, {ent['opPos']}, {ent['nconds']}, "
           f"structural_{name}, fwds_{name}⟩")
+        w("/-- per rule: (0 structural | 1 forwarder | 2 generic, what is touched of the operator, every call of a family function with the source of each argument) -/")
+        w(f"def shapes_{name} : List RuleShape := [")
+        sl = []
+        for i, r in enumerate(ent["rules"]):
+            calls = []
+            for c in r.calls:
+                if c["args"] is None:
+                    calls.append(f"({json.dumps(c['target'])}, [.alts [.unknown]])")
+                else:
+                    calls.append(f"({json.dumps(c['target'])}, {D.lean_list(lean_src(a) for a in c['args'])})")
+            code = {"structural": 0, "forwarder": 1, "generic": 2}[r.cls]
+            sl.append(f"  ⟨{i}, {code}, {D.lean_list(json.dumps(t) for t in r.touch)}, {D.lean_list(calls)}⟩")
+        w(",\n".join(sl))
+        w("]")
         w(f"/-- (kind class, 0 = algorithm omitted | 1 + algorithm class, resolver tuple) — {len(ent['cases'])} cases -/")
         w(f"def cases_{name} : List Case := [")
         cs = [f"⟨{c['kind']}, {c['pres']}, ⟨{D.lean_hint(c['args'])}, {c['conds']}⟩⟩" for c in ent["cases"]]
@@ -503,6 +592,7 @@ def emit_lean(m, S, fam, path):
         w("]")
         w("")
     w("def family : List Entry := " + D.lean_list(f"entry_{n}" for n in FAMILY))
+    w("def familyShapes : List (String × List RuleShape) := " + D.lean_list(f"({json.dumps(n)}, shapes_{n})" for n in FAMILY))
     w("def familyCases : List (String × List Case) := " + D.lean_list(f"({json.dumps(n)}, cases_{n})" for n in FAMILY))
     w("/-- Python class name of every structured kind and its class id -/")
     w("def kindIds : List (String × Nat) := " + D.lean_list(f"({json.dumps(short(i))}, {i})" for i in S))
@@ -526,7 +616,9 @@ def emit_json(m, S, fam, path):
             "fwds": ent["fwds"],
             "rules": [{"index": i, "class": r.cls, "impl": r.impl, "where": f"{r.file}:{r.line}", "def": r.def_text,
                        "touches": r.attrs, "not_factorwise": sorted(set(r.bad)), "kind_rule": r.kind_rule,
-                       "forwards": [f["text"] for f in r.fwds]} for i, r in enumerate(ent["rules"])],
+                       "forwards": [f["text"] for f in r.fwds], "touch": r.touch,
+                       "calls": [{"target": c["target"], "args": c["args"], "text": c["text"]} for c in r.calls]}
+                      for i, r in enumerate(ent["rules"])],
             "cases": ent["cases"],
         }
     with open(path, "w") as f:
